@@ -36,6 +36,9 @@ class StageSpec:
     enabled: bool | None = None   # stageEnabled
     maxj: int | None = None       # stage-level _max_jumps
     split: dict | None = None     # OR-split: {downstream stage index: bool value of its split condition}; None = AND-split
+    # pre-declared synthetic children (implementation-only family, harness/synth_suites.py; NOT part of the model's spec line):
+    # [{"owner": "B" | "A", "tasks": [[outcome, ...]]}, ...]  B = STAGE_BEFORE, A = STAGE_AFTER
+    synth: list | None = None
 
 
 @dataclass
@@ -58,7 +61,23 @@ class Spec:
         return "#".join(parts)
 
     def to_json(self) -> dict:
-        return {"wf_maxj": self.wf_maxj, "stages": [vars(s) for s in self.stages]}
+        return {"wf_maxj": self.wf_maxj,
+                "stages": [{k: v for k, v in vars(s).items() if not (k == "synth" and not v)} for s in self.stages]}
+
+    def children(self) -> list[tuple[int, str, list[list[str]]]]:
+        """synthetic children in storage order: (parent index, owner 'B'/'A', task scripts); the child number c of this list
+        is stage index len(stages) + c in state lines, audit rows, message codes and the ledger"""
+        out = []
+        for i, s in enumerate(self.stages):
+            for ch in (s.synth or []):
+                out.append((i, ch["owner"], [list(t) for t in ch["tasks"]]))
+        return out
+
+    def scripts(self, s: int) -> list[list[str]]:
+        """task scripts of stage index s (top-level stage or synthetic child)"""
+        if s < len(self.stages):
+            return self.stages[s].tasks
+        return self.children()[s - len(self.stages)][2]
 
     @staticmethod
     def from_json(d: dict) -> "Spec":
@@ -75,7 +94,7 @@ class World:
         self.hook: Callable[[int, int, int], None] | None = None
 
     def outcome(self, s: int, t: int, n: int) -> str:
-        script = self.spec.stages[s].tasks[t]
+        script = self.spec.scripts(s)[t]
         return script[min(n - 1, len(script) - 1)]
 
 
@@ -126,7 +145,7 @@ def make_task(world: World, s: int, t: int):
 MSG_CODE = {
     "StartWorkflow": "SW", "StartStage": "SS", "StartTask": "ST", "RunTask": "RT", "CompleteTask": "CT",
     "CompleteStage": "CS", "SkipStage": "SK", "CancelStage": "XS", "CompleteWorkflow": "CW", "CancelWorkflow": "XW",
-    "JumpToStage": "JS", "SignalStage": "SG",
+    "JumpToStage": "JS", "SignalStage": "SG", "ContinueParentStage": "CP",
 }
 
 
@@ -249,6 +268,9 @@ class Engine:
         for s, st in enumerate(self.spec.stages):
             for t in range(len(st.tasks)):
                 self.registry.register(f"T_{s}_{t}", make_task(self.world, s, t))
+        for c, (_par, _own, scripts) in enumerate(self.spec.children()):
+            for t in range(len(scripts)):
+                self.registry.register(f"T_{len(self.spec.stages) + c}_{t}", make_task(self.world, len(self.spec.stages) + c, t))
         hc = HandlerConfig(task_backoff_min_delay_ms=864000000, task_backoff_max_delay_ms=864000001,
                            max_stage_wait_retries=WAIT_MAX, handler_retry_delay_seconds=864000)
         # the per-workflow circuit breaker is volatile in-memory state outside the model: pass-through
@@ -298,6 +320,19 @@ class Engine:
                                 requisite_stage_ref_ids={f"s{r}" for r in sp.reqs},
                                 join_type=JoinType[sp.join], join_threshold=sp.threshold, **extra)
             stages.append(st)
+        # pre-declared synthetic children, built the way the repo's tests build them (tests/test_synthetic_stage_edge_cases.py):
+        # a StageExecution with synthetic_stage_owner + parent_stage_id, no requisites, stored with the workflow
+        n_top = len(stages)
+        for c, (par, own, scripts) in enumerate(self.spec.children()):
+            from stabilize.models.stage import SyntheticStageOwner
+
+            i = n_top + c
+            tasks = [TaskExecution.create(name=f"t{t}", implementing_class=f"T_{i}_{t}", stage_start=(t == 0),
+                                          stage_end=(t == len(scripts) - 1)) for t in range(len(scripts))]
+            ch = StageExecution(ref_id=f"s{i}", type="scripted", name=f"s{i}", context={}, tasks=tasks,
+                                synthetic_stage_owner=(SyntheticStageOwner.STAGE_BEFORE if own == "B" else SyntheticStageOwner.STAGE_AFTER))
+            ch.parent_stage_id = stages[par].id
+            stages.append(ch)
         wf = Workflow.create(application="verif", name="wf", stages=stages)
         if self.spec.wf_maxj is not None:
             wf.context["_max_jumps"] = self.spec.wf_maxj
@@ -352,6 +387,8 @@ class Engine:
             return f"JS.{s}.{payload.get('target_stage_ref_id', '?')[1:]}"
         if c == "SG":
             return f"SG.{s}.{int(bool(payload.get('persistent')))}"
+        if c == "CP":
+            return f"CP.{s}.{'B' if 'BEFORE' in str(payload.get('phase')) else 'A'}.{payload.get('retry_count') or 0}"
         return f"{c}.{s}"
 
     def pending(self) -> list[tuple[int, str, int]]:
